@@ -205,7 +205,11 @@ def mxint2bitstore(f: Union[str, float]) -> BitStore:
 
 
 def int2bitstore(i: int, length: int, signed: bool) -> BitStore:
-    i = int(i)
+    try:
+        i = int(i)
+    except OverflowError:
+        # e.g. float('inf'), which can turn up as the result of Array arithmetic
+        raise bitstring.CreationError(f"{i} can't be represented as an integer.")
     try:
         x = BitStore(bitarray.util.int2ba(i, length=length, endian='big', signed=signed))
     except OverflowError as e:
